@@ -256,7 +256,7 @@ def gnu_as(lines, syntax='intel'):
     for m in re.finditer(r'in\.s:(\d+): (Error|Fatal)', p.stderr):
         bad.add(int(m.group(1)) - 2)
     for row in p.stdout.split('\n'):
-        m = re.match(r'^\s*(\d+)\s+([0-9a-f]{4}|\?{4})\s+((?:[0-9A-F]{2,}\s?)+)', row)
+        m = re.match(r'^\s*(\d+)\s+([0-9a-f]{4,8}|\?{4})\s+((?:[0-9A-F]{2,}\s?)+)', row)
         if m:
             ln = int(m.group(1)) - 2
             if 0 <= ln < len(lines):
@@ -269,4 +269,8 @@ def gnu_as(lines, syntax='intel'):
                 out[ln] += binascii.unhexlify(m.group(2).replace(' ', ''))
     import shutil
     shutil.rmtree(tmp, ignore_errors=True)
+    lost = [i for i in range(len(lines)) if not out[i] and i not in bad and lines[i].strip() and not lines[i].startswith('.')]
+    if lost:
+        # neither bytes nor an error message: the listing was not understood -- a defect of this checker, never a verdict on the code
+        raise RuntimeError('GNU as listing not understood for line %d %r' % (lost[0], lines[lost[0]]))
     return [None if (i in bad or not out[i]) else out[i] for i in range(len(lines))]
